@@ -72,6 +72,8 @@ type Fault struct {
 	Silent bool   `json:"silent"`
 	// Stuck (with Silent): the peer has stopped reading as well - writes block until a deadline
 	Stuck bool `json:"stuck"`
+	// Deadline: the context given to the constructor also carries a deadline of its own, an hour away
+	Deadline bool `json:"deadline"`
 }
 
 type Run struct {
@@ -225,6 +227,11 @@ func runOne(r Run) ([]vt.Ev, baseline) {
 	}
 	ctx, cancel := context.WithCancel(context.Background())
 	defer cancel()
+	if r.Fault.Deadline {
+		var c2 context.CancelFunc
+		ctx, c2 = context.WithTimeout(ctx, time.Hour)
+		defer c2()
+	}
 	octx, ocancel := context.WithTimeout(context.Background(), 20*time.Second)
 	defer ocancel()
 	gates := 0
@@ -384,7 +391,7 @@ func main() {
 	emit := func(r Run) {
 		evs, _ := runOne(r)
 		runs++
-		t := tw.Write(vt.Ev{"silent": r.Fault.Silent}, evs)
+		t := tw.Write(vt.Ev{"silent": r.Fault.Silent, "ctxd": r.Fault.Deadline}, evs)
 		tw.Meta(r)
 		classes[fmt.Sprintf("%s/%s/%s", r.Handshake, r.Side, r.Fault.Kind)] = true
 		if len(samples) < 3 && r.Fault.Kind != "none" && runs%37 == 0 {
@@ -400,7 +407,7 @@ func main() {
 			base := Run{Handshake: h, Side: side, Fault: Fault{Kind: "none"}}
 			evs, bl := runOne(base)
 			runs++
-			tw.Write(vt.Ev{"silent": false}, evs)
+			tw.Write(vt.Ev{"silent": false, "ctxd": false}, evs)
 			tw.Meta(base)
 			notes = append(notes, vt.Ev{"handshake": h, "side": side, "baseline_ok": bl.ok, "reads": bl.reads, "writes": bl.writes, "bytes_in": bl.bytesIn, "gates": bl.gates})
 			// peer's byte stream ends after every prefix length (quick: every 5th and the first/last 48)
@@ -420,6 +427,11 @@ func main() {
 				emit(Run{h, side, Fault{Kind: "cancel", At: k}})
 				emit(Run{h, side, Fault{Kind: "cancel", At: k, Silent: true}})
 				emit(Run{h, side, Fault{Kind: "cancel", At: k, Silent: true, Stuck: true}})
+				emit(Run{h, side, Fault{Kind: "cancel", At: k, Silent: true, Deadline: true}})
+				if thorough || k%3 == 0 {
+					emit(Run{h, side, Fault{Kind: "cancel", At: k, Deadline: true}})
+					emit(Run{h, side, Fault{Kind: "cancel", At: k, Silent: true, Stuck: true, Deadline: true}})
+				}
 			}
 		}
 	}
